@@ -1,0 +1,13 @@
+//go:build verif
+
+// Contracts for package value, checked by /verif/gvc (comment-only file,
+// compiled only under the build tag "verif").
+package value
+
+// valueEq(a, b): the relation Equal decides (defined per oneof arm in C19).
+//@ spec valueEq(*pb.TypedValue, *pb.TypedValue) bool
+
+//@ func Equal
+//@   props C19 C12
+//@   trusted functional postcondition not yet proved against the body (see C19)
+//@   ensures res0 <==> valueEq(a, b)
